@@ -95,7 +95,9 @@ def run(ctx):
                 law, len(lst), a, b, (" c=%r" % c) if c else "", o["ab"], o["ba"], o["aa"])
             ctx.report(what, {"reexec": ["priority-pair"], "args": args, "law": law, "observed": o}, {"law": law})
     # selection: the reported rule is never outranked by another candidate (all permutations)
-    verdictcheck.run(ctx, "verdict", [(3, 0)] if not full else [(4, 0)], why_filter=lambda m: "outranked" in m["why"])
+    # (with referrer-level exceptions too: a candidate they disable must not take part in the selection at all, so every
+    # disagreement of these replays counts here, not only "outranked")
+    verdictcheck.run(ctx, "verdict", [(3, 0), (2, 1)] if not full else [(4, 0), (3, 2)])
     ctx.exhaustive = True
 
 
